@@ -100,6 +100,9 @@ class Resolver:
                     field,
                     [self._res(v, at, depth + 1, stack, bound) if isinstance(v, ast.AST) and not isinstance(v, (ast.cmpop,)) else v for v in value],
                 )
+        if isinstance(new, ast.Call) and isinstance(new.func, ast.Name) and new.func.id in ("max", "min") and len(new.args) == 1 and not new.keywords \
+                and isinstance(new.args[0], (ast.Tuple, ast.List)):
+            new.args = list(new.args[0].elts)  # max((a, b, c)) == max(a, b, c)
         if isinstance(new, ast.Call) and self.inliner is not None and not is_sym(new):
             inl = self.inliner(new, e)
             if inl is not None:
